@@ -676,6 +676,74 @@ def run_xp(ctx, xh, xm, found, texts, report, replay_group=None):
     ctx.coverage["traces_validated_against_impl"] += len(lines)
 
 
+def run_prep(ctx, xh, xm, report, replay_case=None):
+    """fMinLength / fFirstChar of the compiled expression against ModelPre11.prepare_info and the Spec oracles P1..P3
+    (gen/C11_prep.py).  A difference from the model that no Spec oracle turns into a failing input is reported as a
+    broken correspondence."""
+    import C11_prep as P
+    t0 = time.time()
+    swbits = ctx.coverage.get("_swbits", "000")
+    cases = [replay_case] if replay_case else P.gen(ctx)
+    if not cases:
+        return
+    il = [P.impl_line(c) for c in cases]
+    ml = [P.model_line(c, swbits) for c in cases]
+    words = [P.words_for(c, ctx.rng) for c in cases]
+    sl = [P.spec_line(c, w) for c, w in zip(cases, words)]
+    try:
+        rc, ia, err = run_bin(xh, il, 300)
+    except subprocess.TimeoutExpired:
+        ctx.violation("harness-hang", {"what": "prep harness run did not finish"}, no_input=True)
+        return
+    if rc != 0 or len(ia) != len(il):
+        ctx.violation("harness-crash", {"what": "implementation harness crashed while compiling an expression", "rc": rc,
+                                        "stderr": err[-1500:], "request": il[min(len(ia), len(il) - 1)]})
+        return
+    rc2, ma, err2 = run_bin(xm, ml + sl)
+    if rc2 != 0 or len(ma) != 2 * len(cases):
+        ctx.violation("model-crash", {"what": "prep model crashed", "stderr": err2[-1500:]}, no_input=True)
+        return
+    ma, sa = ma[:len(cases)], ma[len(cases):]
+    kinds = ctx.coverage["input_distribution"]
+    diverged, n_fc, n_words, n_spec_bad = [], 0, 0, 0
+    for c, req, a, m, ws, so in zip(cases, il, ia, ma, words, sa):
+        kinds[c["kind"]] = kinds.get(c["kind"], 0) + 1
+        ctx.count(1 + len(ws))
+        bits = so.split()[1] if so.startswith("ok") and len(so.split()) > 1 else ""
+        n_words += bits.count("1")
+        payload = {"request": req, "prep_case": c, "impl": a, "model": m}
+        if not a.startswith("ok"):
+            if m.startswith("ok"):
+                report("prep-compile", dict(payload, what="the implementation rejects an expression of the common subset "
+                                                         "that the parser model accepts"))
+            continue
+        p = P.parse_prep(a)
+        if p and p[1] is not None:
+            n_fc += 1
+            ctx.distinct(req)
+        bad = P.judge(c, a, ws, bits)
+        if bad:
+            n_spec_bad += 1
+            report("prep-" + bad[0], dict(payload, oracle=bad[0], detail=bad[1], witness_word=bad[2],
+                                          what="pre-filter data of the compiled expression excludes a word of its language "
+                                               "(confirmed by the Spec matcher): matches() answers false without matching"))
+            continue
+        want = m
+        if m.startswith("ok") and ("X" in c["opts"] or "H" in c["opts"]):
+            want = " ".join(m.split()[:2] + ["-"])
+        if a != want:
+            diverged.append((req, a, want, c))
+    if diverged and not n_spec_bad:
+        req, a, m, c = diverged[0]
+        ctx.violation("correspondence", {"what": "fMinLength / fFirstChar of the compiled expression differ from ModelPre11.prepare_info "
+                                         "but no Spec oracle (P1..P3) found a word of the language they exclude: the tie of the "
+                                         "pre-filter model no longer holds", "request": req, "prep_case": c, "impl": a, "model": m,
+                                         "count": len(diverged)}, no_input=True)
+    ctx.coverage["prep"] = {"cases": len(cases), "with_headchar_set": n_fc, "spec_confirmed_words": n_words,
+                            "model_differences": len(diverged), "seconds": round(time.time() - t0, 1)}
+    ctx.coverage["traces_validated_against_impl"] = ctx.coverage.get("traces_validated_against_impl", 0) + len(il)
+
+
 def run(ctx):
     t0 = time.time()
     ctx.coverage["trusted_base"] = list(V.GLOBAL_TRUSTED_BASE) + [
@@ -711,6 +779,7 @@ def run(ctx):
     xm = ctx.ocaml("C11", ["gen_c11"])
     # 4. requests
     replay_group = None
+    replay_prep = None
     if ctx.replay:
         r = json.load(open(ctx.replay))
         reqs = [{"kind": "replay", "req": r["request"], "ast": r.get("ast"), "mode": r["request"].split()[0],
@@ -718,6 +787,10 @@ def run(ctx):
         rngs = []
         if r["request"].startswith("rng"):
             rngs, reqs = [tuple(r["rng_case"])], []
+        if r.get("prep_case"):
+            replay_prep = r["prep_case"]
+            reqs = [{"kind": "replay", "req": "re X 000061 000061", "ast": "Sr000061000061", "mode": "re", "pat": None,
+                     "strs": None}]
         if r.get("xp_group"):
             replay_group = dict(r["xp_group"])
             replay_group.setdefault("expr", None)
@@ -953,6 +1026,8 @@ def run(ctx):
             found.setdefault("F36", []).append(("xp", "xp b i %s %s" % (pl, hx([0x41, 0x62])), "without i: %s, with i: %s" % (ow[0], ow[1])))
     if not ctx.replay or replay_group:
         run_xp(ctx, xh, xm, found, None, report, replay_group)
+    if not ctx.replay or replay_prep:
+        run_prep(ctx, xh, xm, report, replay_prep)
     ctx.coverage.pop("_swbits", None)
     # --- findings ---
     texts = {
@@ -996,7 +1071,7 @@ def run(ctx):
             ctx.violation(fid, {"request": req, "ast": reqs[i].get("ast") if 0 <= i < len(reqs) else None,
                                 "impl": impl[i] if i >= 0 else None, "spec": spec_of.get(i) if i >= 0 else "parse-error",
                                 "what": texts.get(fid, fid)})
-    ctx.coverage["traces_validated_against_impl"] = len(lines)
+    ctx.coverage["traces_validated_against_impl"] = ctx.coverage.get("traces_validated_against_impl", 0) + len(lines)
     ctx.coverage["input_distribution"] = kinds
     ctx.coverage["answers"] = answers
     ctx.coverage["spec_oracle_checked"] = len(spec_idx) + len(rngs)
